@@ -219,6 +219,18 @@ def run(rd, emit, log, enum_values, ti_default):
     if uncond is None: log.append('C14: DumpProgramState not recognised')
     body += '(* IcingaApplication::DumpProgramState: true = DumpObjects(StatePath) and DumpModifiedAttributes() are its first statements, executed on EVERY call; false = something in front of them can return / skip (e.g. "another dump is running") *)\n'
     body += 'Definition f_ps_dump_unconditional : option bool := %s.\n' % ('Some ' + uncond if uncond else 'None')
+    ser = None
+    if db is not None:
+        code = re.sub(r'/\*.*?\*/|//[^\n]*', '', db, flags=re.S)
+        fd = re.search(r'\bDumpObjects\s*\(', code)
+        if fd:
+            before = code[:fd.start()]
+            blocking = re.search(r'static\s+std::(recursive_)?mutex\s+(\w+)\s*;', before)
+            if blocking and re.search(r'std::(unique_lock|lock_guard)\s*<[^>]*>\s*\w+\s*[({]\s*' + blocking.group(2) + r'\s*[)}]\s*;', before) \
+               and not re.search(r'try_to_lock|try_lock|defer_lock|\breturn\b', before): ser = 'true'
+            elif not re.search(r'mutex|lock', before, re.I): ser = 'false'
+    body += '(* DumpProgramState: true = the whole function runs under a BLOCKING lock of a function-local static mutex (calls are serialised: a second caller waits, then dumps); false = no lock at all *)\n'
+    body += 'Definition f_ps_dump_serialised : option bool := %s.\n' % ('Some ' + ser if ser else 'None')
     sb = _fn_body(ia, r'void\s+IcingaApplication::OnShutdown\s*\(\s*\)')
     sd = None
     if sb is not None:
